@@ -43,7 +43,7 @@ example : parseChain (ex1_bytes.length + 2) "EthernetII" ex1_bytes = .ok ex1_re 
 example : ViewEqAll 0 ex1 ex1_re := chain_reparse_all_view _ _ ex1_stackable ex1_bytes rfl _ rfl
 example : ∃ os', parseChain (ex1_bytes.length + 2) "EthernetII" ex1_bytes = .ok os' ∧ ViewEqAll 0 ex1 os' ∧
     (splitRaw os').2 = [0xde, 0xad, 0xbe] :=
-  chain_reparse_all_net _ _ ex1_stackable ⟨.ip (.ip exIp), by simp [ex1], rfl⟩ ex1_bytes rfl
+  chain_reparse_all_net _ _ ex1_stackable ⟨.ip (.ip exIp), by simp, rfl⟩ ex1_bytes rfl
 
 /-! #### 2. EthernetII / IP (NOOP + stream identifier; don't-fragment) / TCP (MSS, NOP, window scale) / RawPDU -/
 def exIp2 : Ip.Ip4 :=
@@ -89,7 +89,7 @@ theorem ex2_stackable : StackableAll ex2 :=
 example : serializeObjs ex2 = .ok ex2_bytes := rfl
 example : ∃ os', parseChain (ex2_bytes.length + 2) "EthernetII" ex2_bytes = .ok os' ∧ ViewEqAll 0 ex2 os' ∧
     (splitRaw os').2 = [0x47, 0x45, 0x54] :=
-  chain_reparse_all_net _ _ ex2_stackable ⟨.ip (.ip exIp2), by simp [ex2], rfl⟩ ex2_bytes rfl
+  chain_reparse_all_net _ _ ex2_stackable ⟨.ip (.ip exIp2), by simp, rfl⟩ ex2_bytes rfl
 /-- the re-parsed IP and TCP layers carry the same options in the same order -/
 example : ∃ e i t, parseChain (ex2_bytes.length + 2) "EthernetII" ex2_bytes = .ok [e, .ip (.ip i), .tr (.tcp t), .raw [0x47, 0x45, 0x54]] ∧
     i.opts = exIp2.opts ∧ t.opts = exTcp.opts ∧ i.ihl = 7 ∧ t.doff = 7 := ⟨_, _, _, rfl, rfl, rfl, rfl, rfl⟩
@@ -132,7 +132,7 @@ example : serializeObjs ex3 = .ok ex3_bytes := rfl
 set_option maxRecDepth 8192 in
 example : ∃ os', parseChain (ex3_bytes.length + 2) "EthernetII" ex3_bytes = .ok os' ∧ ViewEqAll 0 ex3 os' ∧
     (splitRaw os').2 = [1, 2, 3, 4] :=
-  chain_reparse_all_net _ _ ex3_stackable ⟨.ip6 (.ip6 exIp6), by simp [ex3], rfl⟩ ex3_bytes rfl
+  chain_reparse_all_net _ _ ex3_stackable ⟨.ip6 (.ip6 exIp6), by simp, rfl⟩ ex3_bytes rfl
 
 /-! #### 4. IP / ICMP echo request / RawPDU (entry point IP) -/
 def exIcmp : Icmp.Icmp4 := { Icmp.Icmp4.create 8 with un := [0xab, 0xcd, 0, 5] }
@@ -164,7 +164,7 @@ example : parseChain (ex5_bytes.length + 2) "Loopback" ex5_bytes =
     .ok [.l2 (.loopback ⟨2⟩), .ip (.ip { exIp with ihl := 5, totLen := 28, protocol := 17, check := 21659 }),
          .tr (.udp ⟨1234, 53, 8, 59092⟩)] := rfl
 example : ∃ os', parseChain (ex5_bytes.length + 2) "Loopback" ex5_bytes = .ok os' ∧ ViewEqAll 0 ex5 os' := by
-  rcases chain_reparse_all_net _ _ ex5_stackable ⟨.ip (.ip exIp), by simp [ex5], rfl⟩ ex5_bytes rfl with ⟨os', h1, h2, _⟩
+  rcases chain_reparse_all_net _ _ ex5_stackable ⟨.ip (.ip exIp), by simp, rfl⟩ ex5_bytes rfl with ⟨os', h1, h2, _⟩
   exact ⟨os', h1, h2⟩
 
 /-! #### the hypotheses matter -/
